@@ -106,6 +106,12 @@ def asSO3 (X : SGal3 K) : SO3 K := ⟨X.q⟩
 def make (dbg : Bool) (p : V3 K) (q : Quat K) (v : V3 K) (t : K) : Except Err (SGal3 K) := do
   checkUnit dbg q.norm
   pure ⟨p, q, v, t⟩
+/-- `SGal3(Isometry3, v, t)`: 16 row-major entries, then `v`, then `t` -/
+def ofIsometry (dbg : Bool) (h : List K) : Except Err (SGal3 K) :=
+  let g (r c : Nat) : K := h.getD (4 * r + c) (nat 0)
+  make dbg ⟨g 0 3, g 1 3, g 2 3⟩
+    (Quat.ofRot ⟨g 0 0, g 0 1, g 0 2, g 1 0, g 1 1, g 1 2, g 2 0, g 2 1, g 2 2⟩)
+    ⟨h.getD 16 (nat 0), h.getD 17 (nat 0), h.getD 18 (nat 0)⟩ (h.getD 19 (nat 0))
 def toList (X : SGal3 K) : List K := X.p.toList ++ X.q.toList ++ X.v.toList ++ [X.t]
 end SGal3
 
